@@ -10,3 +10,11 @@ package util
 //@ func (*Meter).CurrentInflight props C09
 //@   pure
 //@   ensures [def] result == m.inflight
+
+// The meter only counts: its bookkeeping (atomic counters, a non-blocking channel send) touches no limiter state.
+//@ func (*Meter).StartOne props C05
+//@   trusted "meter bookkeeping only (atomic counters and a non-blocking send): no limiter state is touched"
+//@   modifies m.inflight, m.uncounted, m.counter
+//@ func (*Meter).EndOne props C05
+//@   trusted "meter bookkeeping only (atomic counter and a non-blocking send): no limiter state is touched"
+//@   modifies m.inflight
